@@ -41,7 +41,7 @@ var Props = map[string]PropSpec{
 		Rule:        "one evaluation = one multistore history with interleaved proof queries at committed versions; each proof is verified by a light-client actor against the recorded commit hash and then every single-field alteration (key, value, root, store name, each inner-node height/size/version/left/right, each leaf key/value-hash/version, each store-info name/hash, presence<->absence claim) must fail; distinct case = (present|absent, key position class)",
 		Assumptions: append([]string{"the version field of a multistore store-info is not part of the commit hash by design and is not altered"}, storeAssume...), RealStub: storeRealStub},
 	"C07": {Engine: "storesim", Level: "fault_enumeration", QuickS: 30, ThoroughS: 900, MinBudget: 300,
-		Rule:           "one evaluation = one multistore history (2-6 IAVL sub-stores) in which selected commits are run against a write-logging simdb; for each such commit EVERY crash image is rebuilt (any subset of sub-stores saved, any cut inside a multi-write save, every prefix of the multistore's own records) and reopened, compared with the last fully committed state, the interrupted block is re-executed and one further block committed; distinct case = (sub-store count, writes in block, previous height class)",
+		Rule:           "one evaluation = one multistore history (2-6 IAVL sub-stores) in which selected commits are run against a write-logging simdb; for each such commit EVERY crash image is rebuilt (any subset of sub-stores saved, any cut inside a multi-write save, every prefix of the multistore's own records) and reopened, compared with the last fully committed state, the interrupted block is re-executed and one further block committed; distinct case = (sub-store count, writes in block, previous height class); every third seed asks the same of a whole node (chainsim): blocks of a generated chain history are committed normally, then the application database is rebuilt as (state before Commit + the first k of the n recorded write units of that Commit), the node is restarted over it with the transaction index as before the block, and either reports the new height with exactly the committed state and app hash, or reports the previous height with exactly its state and re-executes the block to the same results, app hash and state; the run continues on the recovered node",
 		Assumptions:    append([]string{"crash images are reconstructed from per-sub-store write logs (sub-stores write only under their own prefix; asserted on every logged commit)"}, storeAssume...),
 		RealStub:       storeRealStub,
 		ExhaustiveNote: "exhaustive per selected commit (2^k + extra images), not over histories"},
